@@ -52,10 +52,14 @@ class Sandbox:
 
 CLI = {"url": ("--url", "https://cli.example/ofx"), "version": ("--version", "160"), "org": ("--org", "CLIORG"), "fid": ("--fid", "1111"),
        "brokerid": ("--brokerid", "cli.example"), "bankid": ("--bankid", "CLIBANK"), "user": ("-u", "cliuser"), "checking": ("-C", "111"),
-       "appid": ("--appid", "CLIAPP")}
+       "appid": ("--appid", "CLIAPP"), "appver": ("--appver", "9900"), "language": ("--language", "FRA"), "useragent": ("--useragent", "cli-agent/1"),
+       # flags: given on the command line they say True; not given they say nothing
+       "pretty": ("--pretty",), "unclosedelements": ("--unclosedelements",), "nonewfileuid": ("--nonewfileuid",), "skipprofile": ("--skipprofile",)}
 USER = {"url": "https://user.example/ofx", "version": "151", "org": "USERORG", "fid": "2222", "brokerid": "user.example", "bankid": "USERBANK",
-        "user": "fileuser", "checking": "222, 333", "appid": "USRAPP"}
-TYPED = {"version": int, "checking": lambda s: [x.strip() for x in s.split(",")]}
+        "user": "fileuser", "checking": "222, 333", "appid": "USRAPP", "appver": "1100", "language": "DEU", "useragent": "file-agent/2",
+        "pretty": "true", "unclosedelements": "true", "nonewfileuid": "true", "skipprofile": "true"}
+FLAGS = ("pretty", "unclosedelements", "nonewfileuid", "skipprofile")
+TYPED = {"version": int, "checking": lambda s: [x.strip() for x in s.split(",")], **{f: (lambda s: s == "true") for f in ("pretty", "unclosedelements", "nonewfileuid", "skipprofile")}}
 
 
 def check_precedence(it, fn, a):
@@ -82,7 +86,7 @@ def check_precedence(it, fn, a):
         for o in CLI:
             conv = TYPED.get(o, str)
             if o in cli_set:
-                want = conv(CLI[o][1]) if o != "checking" else [CLI[o][1]]
+                want = True if o in FLAGS else (conv(CLI[o][1]) if o != "checking" else [CLI[o][1]])
             elif o in user_set:
                 want = conv(USER[o])
             elif o in lib:
@@ -111,7 +115,8 @@ def cases_precedence(tier):
     return out
 
 
-PERSIST = ["url", "version", "pretty", "unclosedelements", "org", "fid", "bankid", "brokerid", "user", "checking", "savings", "creditcard", "investment", "appid", "appver", "language"]
+PERSIST = ["url", "version", "pretty", "unclosedelements", "org", "fid", "bankid", "brokerid", "user", "checking", "savings", "creditcard", "investment", "appid", "appver", "language",
+           "nonewfileuid", "skipprofile", "useragent"]
 
 
 def check_persistence(it, fn, a):
@@ -170,7 +175,9 @@ def check_persistence(it, fn, a):
 def cases_persistence(tier):
     out = []
     rng = random.Random(9)
-    pool = [["--url", "https://bank.example/ofx"], ["--url", "https://bank.example/ofx?a=b&c=d"], ["--url", "https://bank.example/ofx?x=%20y"], ["-u", "100%user"], ["--version", "203"], ["--version", "102"], ["--version", "220"],
+    pool = [["-u", "john #1"], ["--org", "ACME ;2"], ["--appid", "A #B ;C"], ["--url", "https://bank.example/ofx#frag ;x"], ["-u", "a = b"], ["-u", "[sect]"], ["--org", "x: y"],
+            ["--nonewfileuid"], ["--skipprofile"], ["--unclosedelements", "--version", "102"], ["--useragent", "agent/1 (x; y)"], ["--language", "FRA"], ["--appver", "0100"],
+            ["--url", "https://bank.example/ofx"], ["--url", "https://bank.example/ofx?a=b&c=d"], ["--url", "https://bank.example/ofx?x=%20y"], ["-u", "100%user"], ["--version", "203"], ["--version", "102"], ["--version", "220"],
             ["--pretty"], ["--org", "ORG"], ["--fid", "77"], ["--bankid", "B1"], ["--brokerid", "br.example"],
             ["-u", "porkypig"], ["-C", "111"], ["-C", "111", "-C", "222"], ["-S", "333"], ["-c", "4111", "-c", "4222", "-c", "4333"], ["-i", "77001"],
             ["--appid", "MONEY"], ["--appver", "1900"], ["--language", "FRA"]]
